@@ -469,6 +469,10 @@ func init() {
 		Run: func(e *Engine, r *RuleRun) {
 			// every map-typed local in keeper/types packages: no range (covered by C19.maprange), count the make(map) sites
 			n := 0
+			deadHelper := map[string]bool{}
+			for _, k := range e.DeadHelpers {
+				deadHelper[k] = true
+			}
 			for _, u := range e.astUnits(false) {
 				if u.pkgPath != pKeeper && u.pkgPath != pTypes {
 					continue
@@ -482,8 +486,11 @@ func init() {
 						if id, ok := c.Fun.(*ast.Ident); ok && id.Name == "make" && len(c.Args) > 0 {
 							if tv, ok := u.info.Types[c.Args[0]]; ok {
 								if _, isMap := tv.Type.Underlying().(*types.Map); isMap {
-									n++
 									fn := enclosingFuncName(u.pkgPath, f, c.Pos())
+									if deadHelper[fn] {
+										return true // the declaration of an inlined helper: its body is judged where it was inlined
+									}
+									n++
 									ranged := mapRangedInFunc(u, f, c.Pos())
 									r.Check(!ranged, fn, "map created by make", "map is used as a lookup table only", "a map created here is ranged over in the same function", e.Pos(c.Pos()))
 									if esc := mapEscapes(u, f, c); esc != "" {
@@ -561,6 +568,50 @@ func mapEscapes(u astUnit, f *ast.File, c *ast.CallExpr) string {
 	if obj == nil {
 		return "" // not bound to a variable (e.g. composite literal field): handled by the range rule
 	}
+	// the map may be copied to other local variables (`m2 := m`, `a, b = m, x`): the copies are held to the same rule
+	aliases := map[types.Object]bool{obj: true}
+	localVar := func(id *ast.Ident) types.Object {
+		o := u.info.Defs[id]
+		if o == nil {
+			o = u.info.Uses[id]
+		}
+		if v, ok := o.(*types.Var); ok && !v.IsField() && v.Pkg() != nil && v.Parent() != v.Pkg().Scope() {
+			return o
+		}
+		return nil
+	}
+	for changed := true; changed; {
+		changed = false
+		ast.Inspect(fd.Body, func(n ast.Node) bool {
+			add := func(l *ast.Ident, r ast.Expr) {
+				rid, ok := ast.Unparen(r).(*ast.Ident)
+				if !ok || !aliases[u.info.Uses[rid]] || l.Name == "_" {
+					return
+				}
+				if o := localVar(l); o != nil && !aliases[o] {
+					aliases[o] = true
+					changed = true
+				}
+			}
+			switch x := n.(type) {
+			case *ast.AssignStmt:
+				if len(x.Lhs) == len(x.Rhs) {
+					for i, l := range x.Lhs {
+						if lid, ok := l.(*ast.Ident); ok {
+							add(lid, x.Rhs[i])
+						}
+					}
+				}
+			case *ast.ValueSpec:
+				if len(x.Names) == len(x.Values) {
+					for i, nm := range x.Names {
+						add(nm, x.Values[i])
+					}
+				}
+			}
+			return true
+		})
+	}
 	var stack []ast.Node
 	esc := ""
 	ast.Inspect(fd.Body, func(n ast.Node) bool {
@@ -570,7 +621,7 @@ func mapEscapes(u astUnit, f *ast.File, c *ast.CallExpr) string {
 		}
 		stack = append(stack, n)
 		id, ok := n.(*ast.Ident)
-		if !ok || esc != "" || (u.info.Uses[id] != obj) {
+		if !ok || esc != "" || !aliases[u.info.Uses[id]] {
 			return true
 		}
 		if len(stack) < 2 {
@@ -594,6 +645,24 @@ func mapEscapes(u astUnit, f *ast.File, c *ast.CallExpr) string {
 			for _, l := range p.Lhs {
 				if l == ast.Expr(id) {
 					return true
+				}
+			}
+			// copied to a local variable that is followed as an alias, or discarded
+			if len(p.Lhs) == len(p.Rhs) {
+				for i, rh := range p.Rhs {
+					if rh == ast.Expr(id) {
+						if lid, ok := p.Lhs[i].(*ast.Ident); ok && (lid.Name == "_" || aliases[localVar(lid)]) {
+							return true
+						}
+					}
+				}
+			}
+		case *ast.ValueSpec:
+			if len(p.Names) == len(p.Values) {
+				for i, v := range p.Values {
+					if v == ast.Expr(id) && (p.Names[i].Name == "_" || aliases[u.info.Defs[p.Names[i]]]) {
+						return true
+					}
 				}
 			}
 		}
